@@ -193,7 +193,7 @@ def counting_discipline(chk, F, rule, cfg, fn, rows):
            site='callers', what='callers of next_responder', found=callers, expected=['eval::DynCtx::eval_dyn'])
     acc = L.field_accesses(F, 'counter::CallCounter', 'actual_count')
     users = L.attributed(F, acc)
-    ok = set(users) <= {'counter::CallCounter::fetch_add', 'counter::CallCounter::verify', 'counter::CallCountExpectation::into_counter'}
+    ok = set(users) <= {'counter::CallCounter::fetch_add', 'counter::CallCounter::verify', 'counter::CallCountExpectation::into_counter', 'assemble::MockAssembler::new_call_pattern'}     # (the last two: where a pattern's counter is built)
     chk.ob(rule, 'actual_count is only touched by construction, the bump and verification', ok, config=cfg, site='field:actual_count', what='users of actual_count',
            found=users, expected=['into_counter', 'fetch_add', 'verify'])
     chk.call_sites += len(acc)
